@@ -95,6 +95,16 @@ func c15(args []string) error {
 				}
 				cache.Proposed(b)
 				o.emit(obj{"op": "mark", "batch": batch})
+			case r == 7: // a request whose caller has already given up (cancelled context): it may hand out a batch or return at once
+				ctx, cancel := context.WithCancel(context.Background())
+				cancel()
+				b, err := cache.Get(ctx)
+				abs := [][2]int{}
+				if err == nil && b != nil {
+					abs = batchToAbs(b)
+					handed = append(handed, abs)
+				}
+				o.emit(obj{"op": "cget", "returned": err == nil && b != nil, "batch": abs})
 			default:
 				b, ok := tryGet(cache, 25*time.Millisecond)
 				abs := [][2]int{}
